@@ -7,7 +7,7 @@
 From Coq.Strings Require Import Byte String.
 From Coq Require Import List NArith Bool.
 Import ListNotations.
-From V Require Import lib.Bytes lib.Lsp spec.Splice model.DocEdit.
+From V Require Import lib.Bytes lib.Lsp lib.LspWire spec.Splice spec.SpliceWire model.DocEdit model.DocWire.
 Require Extraction.
 Require Import ExtrOcamlBasic.
 
@@ -72,11 +72,86 @@ Definition step_old (a : list bytes) : list bytes :=
   let r := mk_range (arg 2 a) (arg 3 a) (arg 4 a) (arg 5 a) in
   [doc_string (apply_with is_whole_document_old (new_document s) (Some r) (arg 6 a)); edit s (Some r) (arg 6 a)].
 
+(* ---- the wire: a stream of notifications about several URIs ----
+   wire: u1, u2 (the URIs that are observed), then per notification
+     "O" uri text o1 o2                      didOpen
+     "X" uri o1 o2                           didClose
+     "C" uri n  (rk a b c d rl text) x n  o1 o2     didChange with n content changes;
+            rk = "-" range member absent | "n" null | "r" present (a b c d decimal);
+            rl = ""  rangeLength absent  | "n" null | decimal
+   o1 / o2: what the implementation holds for u1 / u2 after the notification: "M" nothing, "T" ++ text.
+   Reply: per-notification flags "model = implementation", per-notification flags "editor = implementation"
+   ('1' / '0'), both at u1 and u2. *)
+Definition mem_range (rk a b c d : bytes) : member range :=
+  if is rk "r" then Present (mk_range a b c d) else if is rk "n" then Null else Absent.
+Definition mem_num (s : bytes) : member N :=
+  match s with [] => Absent | _ => if is s "n" then Null else Present (num s) end.
+
+Fixpoint take_changes (n : nat) (a : list bytes) : list wchange * list bytes :=
+  match n with
+  | O => ([], a)
+  | S n' =>
+      match a with
+      | rk :: x1 :: x2 :: x3 :: x4 :: rl :: t :: rest =>
+          let (cs, rest') := take_changes n' rest in
+          ({| wrange := mem_range rk x1 x2 x3 x4; wrange_length := mem_num rl; wtext := t |} :: cs, rest')
+      | _ => ([], [])
+      end
+  end.
+
+Definition obs_eq (o : bytes) (x : option bytes) : bool :=
+  match x with None => is o "M" | Some s => bytes_eqb o (x54 :: s) end.
+
+Fixpoint wire_go (fuel : nat) (u1 u2 : bytes) (ms : bytes -> option (list bytes)) (me : bytes -> option bytes)
+                 (a : list bytes) (t1 t2 : bytes) : list bytes :=
+  let fin := [rev t1; rev t2] in
+  let next f n o1 o2 rest :=
+    let ms' := server_note ms n in
+    let me' := editor_note me n in
+    wire_go f u1 u2 ms' me' rest
+      ((if obs_eq o1 (option_map doc_string (ms' u1)) && obs_eq o2 (option_map doc_string (ms' u2)) then x31 else x30) :: t1)
+      ((if obs_eq o1 (me' u1) && obs_eq o2 (me' u2) then x31 else x30) :: t2) in
+  match fuel with
+  | O => fin
+  | S f =>
+      match a with
+      | k :: u :: rest =>
+          if is k "O" then
+            match rest with s :: o1 :: o2 :: rest' => next f (DidOpen u s) o1 o2 rest' | _ => fin end
+          else if is k "X" then
+            match rest with o1 :: o2 :: rest' => next f (DidClose u) o1 o2 rest' | _ => fin end
+          else if is k "C" then
+            match rest with
+            | n :: rest1 =>
+                let (cs, rest2) := take_changes (N.to_nat (num n)) rest1 in
+                match rest2 with o1 :: o2 :: rest' => next f (DidChange u cs) o1 o2 rest' | _ => fin end
+            | _ => fin
+            end
+          else fin
+      | _ => fin
+      end
+  end.
+Definition wire (a : list bytes) : list bytes :=
+  match a with
+  | u1 :: u2 :: rest => wire_go (length rest) u1 u2 no_contents no_buffers rest [] []
+  | _ => [bs "?"]
+  end.
+
+(* the reused-slot decoder, for the harness's self-test: text, previous slot's range, new text ->
+   document after decoding "text only" into that slot and applying; the editor's text *)
+Definition wire_stale (a : list bytes) : list bytes :=
+  let s := arg 0 a in
+  let prev := {| crange := Some (mk_range (arg 1 a) (arg 2 a) (arg 3 a) (arg 4 a)); ctext := [] |} in
+  let w := {| wrange := Absent; wrange_length := Absent; wtext := arg 5 a |} in
+  [doc_string (apply_change (new_document s) (decode_into (Some prev) w)); wire_edit s w].
+
 Definition dispatch (f : bytes) (a : list bytes) : list bytes :=
   if is f "step" then step a
   else if is f "check" then check a
   else if is f "hist" then hist a
   else if is f "step_old" then step_old a
+  else if is f "wire" then wire a
+  else if is f "wire_stale" then wire_stale a
   else [bs "?"].
 
 Extraction "model.ml" dispatch.
